@@ -4,6 +4,7 @@ import MpsVerif.Drv.Ledger
 import MpsVerif.Drv.RemoteExc
 import MpsVerif.Drv.AFifo
 import MpsVerif.Drv.Eager
+import MpsVerif.Drv.Pipeline
 
 def main (args : List String) : IO UInt32 := do
   match args with
@@ -14,4 +15,5 @@ def main (args : List String) : IO UInt32 := do
   | ["afifo"] => AFifo.Drv.main; return 0
   | ["afifostale"] => AFifo.Drv.mainStale; return 0
   | ["eager"] => Eager.Drv.main; return 0
+  | ["pipeline"] => Pipeline.Drv.main; return 0
   | _ => IO.eprintln s!"usage: drv <model>   (models: fifo)"; return 2
